@@ -39,8 +39,9 @@ enum Sym {
     Der,
 }
 
-const ALPHABET: [Sym; 19] = [
+const ALPHABET: [Sym; 20] = [
     Sym::Tol(1e-3),
+    Sym::Tol(2.0),
     Sym::Tol(1e-17),
     Sym::Tol(0.0),
     Sym::Tol(-1.0),
@@ -656,7 +657,7 @@ pub fn stages(ctx: &Ctx) -> Vec<Stage> {
         let span = rng.log10(-6.0, 6.0).max(4096.0 * ulp);
         let dt_max = (span * rng.log10(-4.0, 0.0)).max(64.0 * ulp);
         let dt_min = dt_max * if rng.chance(0.1) { 1.0 } else { rng.log10(-14.0, 0.0) };
-        let tol = rng.log10(-16.0, 0.0);
+        let tol = rng.log10(-16.0, 3.0);
         let cfg = Cfg { t0, t1: t0 + span, dt_min, dt_max, tol };
         if !(cfg.t1 > cfg.t0 && dt_min > 0.0 && dt_min <= dt_max) {
             return;
@@ -690,7 +691,7 @@ pub fn thresholds(ctx: &Ctx, rep: &Report) -> Vec<Threshold> {
     for sv in Solver::ALL {
         t.push(Threshold { what: format!("{}: valid configurations whose minimum step is below the spacing of the floats at the start time", sv.name()), required: ctx.tier.pick(300.0, 6_000.0), observed: rep.counter(&format!("{}/scaled_valid_configs_min_step_below_time_resolution", sv.name())) as f64 });
     }
-    let per_builder = if ctx.tier == Tier::Quick { 380_000.0 } else { 7_000_000.0 };
+    let per_builder = if ctx.tier == Tier::Quick { 460_000.0 } else { 9_000_000.0 };
     for s in Solver::ALL {
         t.push(Threshold { what: format!("{}: builder sequences driven (static)", s.name()), required: per_builder, observed: rep.counter(&format!("{}/sequence_runs", s.name())) as f64 });
         t.push(Threshold { what: format!("{}: complete configurations whose first step was observed", s.name()), required: 100.0, observed: rep.counter(&format!("{}/first_step_observed", s.name())) as f64 });
